@@ -12,12 +12,15 @@ TRUSTED = [
     "Coq 8.16.1 kernel (coqc, full .vo build); vm_compute only for the two non-vacuity Examples and for evaluating cases",
     "translator harness/translator/gen_batch.py + pyz.py (Python ast -> Gallina, fail closed): "
     "Crop.choose_batch_settings, Sower.__call__/save_batch/__exit__",
+    "translator gen_stages.py (description wiring): the combos / cases terms handed to choose_batch_settings, "
+    "saved by prepare -> save_info and enumerated by the sowing runner in sow_combos and sow_cases "
+    "(Bridge/BridgeStages.v; C07_planner_counts_what_is_sown)",
     "bridge lemmas Bridge/BridgeBatch.v tie Gen to Model/Batch.v; math.ceil(n / s) is modelled as exact integer "
     "ceiling (equal to the float computation for n < 2^53)",
     "correspondence harness: harness/props/c07.py + harness/impl/crops.py (reads the pickled batch files)",
     "modelled not verified: pickle round trip of batch files, os/glob, dict equality of kwargs",
 ]
-RULE = ("configurations (N, batchsize | num_batches | neither, input kind grid/cases/cases x grid, shuffle, "
+RULE = ("configurations (N, batchsize | num_batches | neither, input kind grid/cases/cases x grid (the latter through sow_combos or sow_cases), shuffle, "
         "constants, farmer) ; quick: every N in 1..48 with a seeded third of the size/count options, thorough: "
         "all N in 1..48 x batchsize 1..N+1 x num_batches 1..N+2; distinct = distinct (N, size, count, kind, "
         "shuffle) tuples; non-trivial = more than one setting or an error outcome")
@@ -36,7 +39,9 @@ def gen_configs(tier, rng):
             shuffle = rng.choice([False, False, True, rng.randint(2, 99)])
             extras = rng.choice(["none", "none", "constants", "runner"])
             cfgs.append({"n": n, "how": how, "v": v, "kind": kind, "shuffle": shuffle, "extras": extras,
-                         "dims_seed": rng.randint(0, 10 ** 6)})
+                         "dims_seed": rng.randint(0, 10 ** 6),
+                         # cases x grid goes through either sowing entry point
+                         "entry": rng.choice(["sow_combos", "sow_cases"]) if kind == "casesgrid" else "auto"})
     # invalid requests (rejected by the code, error branch of the model)
     for how, v in [("bs", 0), ("bs", -2), ("nb", 0), ("nb", -1)]:
         cfgs.append({"n": 5, "how": how, "v": v, "kind": "grid", "shuffle": False, "extras": "none", "dims_seed": 1})
@@ -92,13 +97,18 @@ def observe(cfg, tmp):
             if cfg["shuffle"]:
                 obs["shuffle_ignored"] = True    # sow_cases has no shuffle argument
             eff_shuffle = False
+        elif cases is not None and cfg.get("entry") == "sow_cases":
+            # cases with sub-combos through sow_cases: the sub-combos are enumerated in the order given
+            crop.sow_cases(("k", "j"), [(c["k"], c["j"]) for c in cases], combos=combos, constants=sow_consts,
+                           verbosity=0)
+            eff_shuffle = False
         else:
             crop.sow_combos(combos, cases=cases, constants=sow_consts, shuffle=cfg["shuffle"], verbosity=0)
             eff_shuffle = cfg["shuffle"]
     except (ValueError, TypeError) as e:
         obs["error"] = type(e).__name__
         return obs
-    sorted_combos = sorted(combos, key=lambda x: x[0])
+    sorted_combos = list(combos) if cfg.get("entry") == "sow_cases" else sorted(combos, key=lambda x: x[0])
     settings = C.product_settings(sorted_combos, cases, all_consts)
     index_of = {C.freeze(k): i for i, k in enumerate(settings)}
     obs["n_settings"] = len(settings)
@@ -212,7 +222,7 @@ def run_cfgs(c, cfgs, tmp, stream):
         c.case(sig, nontrivial=cfg["n"] > 1 or "error" in obs,
                sample={"cfg": {k: cfg[k] for k in ("n", "how", "v", "kind", "shuffle", "extras")},
                        "numbers": obs.get("numbers"), "batches": obs.get("batches"), "error": obs.get("error")})
-        c.count("kind", cfg["kind"]); c.count("request", cfg["how"]); c.count("shuffle", bool(cfg["shuffle"]))
+        c.count("kind", cfg["kind"]); c.count("entry", cfg.get("entry", "auto")); c.count("request", cfg["how"]); c.count("shuffle", bool(cfg["shuffle"]))
         c.count("extras", cfg["extras"]); c.count("outcome", obs.get("error", "ok"))
         for key, msg in oracle(cfg, obs):
             c.violation(key, msg,
@@ -284,11 +294,13 @@ def run(tier, seed):
     c = core.Check("C07", tier, seed)
     gen = core.regen()
     b = core.build(PROP_FILE)
-    c.cov["translator"] = gen.get("GenBatch")
+    c.cov["translator"] = {k: gen.get(k) for k in ("GenBatch", "GenStages")}
     c.cov["build"] = {"ok": b["ok"], "failed_file": b["failed_file"], "wall_s": round(b.get("wall_s", 0), 1)}
     directed = []
     if not gen["GenBatch"]["ok"]:
         c.obligation_broken("translator GenBatch", gen["GenBatch"]["detail"])
+    if "GenStages" in gen and not gen["GenStages"]["ok"]:
+        c.obligation_broken("translator GenStages (call sites of the batch planner)", gen["GenStages"]["detail"])
     if not b["ok"]:
         c.obligation_broken(f"Coq build of {b['failed_file']}", b["log_tail"][-1200:])
         if gen["GenBatch"]["ok"]:
